@@ -147,11 +147,21 @@ def check(ctx, fname, sname, sp, f, tags, rng, ref=None):
         # MoreauEnvelope has no _call: values from the definition
         valf = lambda z: moreau_value(f.functional, f.sigma, z)
     try:
-        for rep in range(ctx.reps(4, 12)):
+        nrep = ctx.reps(4, 12)
+        # base points of very different magnitude: the last repetitions scale the base point *and* the direction (so the
+        # difference steps scale with it) by 1e-9 / 1e-5 / 1e4 - a tolerance where an exact test belongs ("norm close to 0")
+        # or an absolute threshold shows only there.  Exponential-type functionals keep their admissible range.
+        scales = [1.0] * nrep
+        if not any(t in tags for t in ('kl', 'klcc', 'exp')):
+            scales += [1e-9, 1e-5, 1e4]
+        for rep, scl in enumerate(scales):
             x = base_point(sp, rng, tags, fname)
             d = functab.rand_el(sp, rng)
             nd = float(np.abs(util.to_cvec(sp, d)).max())
             d = d * (0.5 / nd) if nd > 0 else d
+            if scl != 1.0:
+                x, d = scl * x, scl * d
+                ctx.ev('scaled-base-point')
             try:
                 gx = grad(x)
             except (NotImplementedError, odl.OpNotImplementedError):
@@ -171,6 +181,10 @@ def check(ctx, fname, sname, sp, f, tags, rng, ref=None):
             kinked = 'c1' in tags or not any(t in tags for t in ('smooth', 'kl', 'klcc', 'exp'))
             hs = fd.HS if not kinked else (1e-2, 1e-3, 1e-4, 1e-5, 1e-6)
             errs = fd.fd_errors(valf, sp.field, x, d, lhs, hs=hs)
+            if scl != 1.0 and abs(lhs) < 1e-11 and not any(abs(q[0]) > 1e-11 for q in fd.fds):
+                # values below the absolute floor of the oracle (squares of 1e-9): nothing to compare
+                ctx.skip('scaled base point: derivative below the absolute floor of the oracle')
+                continue
             if kinked:
                 why = None if min(errs) < 1e-6 else 'fd-mismatch'
             else:
@@ -182,7 +196,7 @@ def check(ctx, fname, sname, sp, f, tags, rng, ref=None):
                 ctx.skip('difference quotients do not resolve the derivative to 1e-6 at any step')
                 why = None
             if why:
-                ctx.violation(comp, cfg, 'gradient-' + why, errors=['%.1e' % e for e in errs])
+                ctx.violation(comp, cfg, 'gradient-' + why, errors=['%.1e' % e for e in errs], base_point_scale=scl)
                 break
         L = f.grad_lipschitz
         if np.isfinite(L) and 'nolip' not in tags and not any(t in tags for t in ('kl', 'klcc')):
@@ -199,6 +213,39 @@ def check(ctx, fname, sname, sp, f, tags, rng, ref=None):
         pass
     except Exception as e:
         ctx.violation(comp, cfg, 'raises:' + type(e).__name__, message=str(e)[:300])
+
+
+def run_numerical_gradient(ctx):
+    """NumericalGradient(f) is documented as the gradient w.r.t. the space's own inner product: for every weighting kind
+    (none, constant, one weight per entry, cell volume) and every scheme <NumericalGradient(f)(x), d> must approximate the
+    directional derivative of the values (first order: 1e-2 relative; a wrong weight is O(1) off)."""
+    from odl.solvers.functional.derivatives import NumericalGradient
+    rng = ctx.rng('numgrad')
+    for sname, sp in functab.spaces():
+        if sp.size > 50:
+            continue
+        v = functab.rand_el(sp, rng)
+        fs = [('L2NormSquared', S.L2NormSquared(sp)), ('translated(L2NormSquared)*3', S.L2NormSquared(sp).translated(v) * 3.0),
+              ('QuadraticForm(vector)+L2sq', S.QuadraticForm(vector=v, constant=0.5) + S.L2NormSquared(sp))]
+        for (fname, f), method, step in [(a, b, c) for a in fs for b in ('forward', 'backward', 'central') for c in (None, 1e-5)]:
+            cfg = '%s;%s;%s' % (util.space_tag(sp), method, 'default-step' if step is None else 'step-given')
+            ctx.case('numerical-gradient;%s;%s' % (fname, sname), (method, step))
+            try:
+                NG = NumericalGradient(f, method=method, **({} if step is None else {'step': step}))
+                for rep in range(ctx.reps(2, 6)):
+                    x = functab.rand_el(sp, rng)
+                    d = functab.rand_el(sp, rng)
+                    ctx.ev('numerical-gradient')
+                    got = NG(x).inner(d)
+                    h = 1e-6
+                    ref = (f(x + h * d) - f(x - h * d)) / (2 * h)
+                    ana = f.gradient(x).inner(d)
+                    if abs(got - ref) > 1e-2 * max(1.0, abs(ref), x.norm() * d.norm()):
+                        ctx.violation('NumericalGradient', cfg, 'not-the-gradient-in-the-space-inner-product', got=float(got), fd=float(ref),
+                                      analytic=float(ana), functional=fname)
+                        break
+            except Exception as e:
+                ctx.violation('NumericalGradient', cfg, 'raises:' + type(e).__name__, message=str(e)[:200])
 
 
 def run(ctx):
@@ -227,5 +274,7 @@ def run(ctx):
         if i % 31 == 0:
             ctx.sample({'functional': fname, 'space': util.srepr(sp, 60)})
         check(ctx, fname, sname, sp, f, tags, rng, ref)
+    if ctx.shard == 0:
+        run_numerical_gradient(ctx)
     for m in ('gradient-vs-values', 'derivative-vs-gradient', 'documented-values', 'lipschitz-bound'):
         ctx.ev(m, 0)
